@@ -23,3 +23,28 @@ Proof.
     inversion H; subst. cbn [rr_res]. now apply distribute_sum in D.
   - eapply request_reported; eauto.
 Qed.
+
+(* ---------------------------------------------------------------- reported-as-set under API faults *)
+From Verif Require model.Accounting proofs.AccountingFacts proofs.AccountingEndToEnd.
+
+Lemma manager_reported_under_faults powf gs p adj rr m out_of :
+  czero p = false -> manager_request powf gs p adj = MDone rr ->
+  (forall inv, In inv (map fst (res_dist (rr_res rr))) -> Accounting.inv_bats m inv <> nil) ->
+  res_dist (rr_res rr) <> nil ->
+  let d := res_dist (rr_res rr) in
+  let outs := map (fun c => out_of (fst c)) d in
+  let R := faults_result p rr m out_of in
+  Accounting.r_reported R = true /\
+  Accounting.r_succeeded_power R == Accounting.qsum (map snd (AccountingFacts.ok_calls d outs)) /\
+  Accounting.r_failed_power R == Accounting.qsum (map snd (AccountingFacts.failed_calls d outs)) /\
+  Accounting.r_succeeded_power R + Accounting.r_failed_power R + Accounting.r_excess R == p /\
+  Accounting.r_excess R == res_rem (rr_res rr).
+Proof.
+  intros Hz H Hm Hn d outs R. apply manager_done in H. destruct H as [H _].
+  unfold run_request in H. destruct (distribute powf gs p) as [r|] eqn:D; [|discriminate].
+  inversion H; subst rr. cbn [rr_res] in *.
+  assert (W : AccountingFacts.bat_wf (AccountingEndToEnd.bat_of_distribution p r m outs)).
+  { split; [unfold outs, d; cbn; now rewrite map_length|exact Hm]. }
+  destruct (AccountingEndToEnd.bat_end_to_end powf gs p r m outs Hz D W Hn) as (E1 & E2 & E3 & E4 & E5).
+  repeat split; assumption.
+Qed.
